@@ -156,7 +156,7 @@ Eval == /\ e.ev = "eval" /\ Common
 
 Collect == /\ e.ev = "collect" /\ Common /\ Pass
 
-Other == /\ e.ev \in {"end", "panic", "hang", "mutate", "args", "note", "crash", "fault", "corrupt", "shape"} /\ Common /\ Pass
+Other == /\ e.ev \in {"end", "panic", "hang", "mutate", "args", "note", "crash", "fault", "corrupt", "shape", "names"} /\ Common /\ Pass
 
 \* FlushAll / FlushAllAndCommit / Commit
 FlushEv == /\ e.ev = "flush" /\ Common
@@ -431,6 +431,8 @@ DirOK(o, S) ==
 Conf_C18 ==
   At =>
   /\ (E.ev = "obs" /\ "dir" \in DOMAIN E /\ ~hdr.cfg.async) => DirOK(E, store)
+  \* the directory of every collection type is named as the pinned release names it
+  /\ E.ev = "names" => E.got = E.want
   \* once Close has returned the layout is exact under every configuration
   /\ (E.ev = "reopen" /\ E.close /\ "dir" \in DOMAIN E) => DirOK(E, store)
 
